@@ -1,7 +1,8 @@
 //! C20 correspondence: real tensor_compress / tcp framing vs the Lean codec model.
 use nverif::*;
 use serde_json::json;
-use tensor_chain::network::{BlockRequest, Message, TxAckMsg};
+use tensor_chain::network::{BlockRequest, Message, QueryResponse, TxAckMsg};
+use tensor_chain::tcp::compression::{self, CompressionConfig, CompressionMethod};
 use tensor_chain::tcp::{LengthDelimitedCodec, TcpError};
 use tensor_compress::{
     compress_ids, decompress_ids, delta_decode, delta_encode, rle_decode, rle_encode,
@@ -156,6 +157,10 @@ fn real_read_all(codec: &LengthDelimitedCodec, stream: &[u8], rt: &tokio::runtim
             }
         }
     })
+}
+
+fn cfg_enabled(c: &LengthDelimitedCodec) -> bool {
+    c.compression_enabled()
 }
 
 fn main() {
@@ -395,6 +400,64 @@ fn main() {
         };
         // only the empty/non-empty decision and the flag split are compared (bitcode/lz4 opaque)
         rep.compare("frame.v2_split", || json!({"payload": hex(&p)}), &imp, &m.ask(&format!("v2_split {}", hex(&p))));
+    }
+
+    // ---- stream 5: v2 frames with compression negotiated (LZ4 / None), compressible and not
+    let mut r = root.fork("frames_v2c");
+    for _ in 0..600 * scale {
+        let method = if r.chance(4, 5) { CompressionMethod::Lz4 } else { CompressionMethod::None };
+        let min_size = *r.pick(&[0usize, 16, 64, 256]);
+        let max = *r.pick(&[64usize, 512, 1 << 20]);
+        let enabled = r.chance(5, 6);
+        let cfg = CompressionConfig::default().with_method(method).with_min_size(min_size);
+        let mut codec = LengthDelimitedCodec::with_compression(max, cfg);
+        codec.set_compression_enabled(enabled);
+        let n = *r.pick(&[0usize, 8, 40, 300, 2000]);
+        let (result, kind) = match r.below(3) {
+            0 => (vec![7u8; n], "compressible"),
+            1 => (r.bytes(n), "incompressible"),
+            _ => {
+                let mut v = r.bytes(n / 2);
+                v.extend(vec![0u8; n - n / 2]);
+                (v, "mixed")
+            }
+        };
+        let msg = Message::QueryResponse(QueryResponse {
+            query_id: r.next_u64(),
+            shard_id: r.below(4) as usize,
+            result,
+            execution_time_us: r.below(1000),
+            success: true,
+            error: None,
+        });
+        let ser = bitcode::serialize(&msg).unwrap();
+        let comp = compression::compress(&ser, method);
+        let method_flag = compression::frame_flags(method);
+        let real = codec.encode_v2(&msg);
+        let imp = match &real {
+            Ok(f) => format!("ok {}", hex(f)),
+            Err(e) => format!("err {}", tcp_err(e)),
+        };
+        let line = format!("frame_enc2c {max} {} {min_size} {method_flag} {} {}", u8::from(enabled && cfg_enabled(&codec)), hex(&ser), hex(&comp));
+        rep.compare("frame.encode_v2c", || json!({"max": max, "enabled": enabled, "min_size": min_size, "method_flag": method_flag, "ser_len": ser.len(), "comp_len": comp.len(), "kind": kind}), &imp, &m.ask(&line));
+        rep.hit(&format!("v2c.{kind}.{}", if comp.len() < ser.len() { "shrinks" } else { "grows" }));
+        if let Ok(frame) = &real {
+            rep.hit(if frame.get(4) == Some(&1) { "v2c.sent_compressed" } else { "v2c.sent_raw" });
+            // oracle: the decoder must hand back the message that was encoded
+            match guarded(std::panic::AssertUnwindSafe(|| codec.decode_payload_v2(&frame[4..]))) {
+                Ok(Ok(back)) => {
+                    if bitcode::serialize(&back).unwrap() != ser {
+                        rep.violation("tensor_chain.tcp.framing.encode_v2/roundtrip_not_identity", "decode_payload_v2(encode_v2(m)) != m", json!({"kind": kind, "ser_len": ser.len(), "comp_len": comp.len(), "min_size": min_size, "flags": frame.get(4)}));
+                    }
+                }
+                Ok(Err(e)) => rep.violation("tensor_chain.tcp.framing.encode_v2/roundtrip_not_identity", &format!("decode_payload_v2(encode_v2(m)) fails: {e:?}"), json!({"kind": kind, "ser_len": ser.len(), "comp_len": comp.len(), "min_size": min_size, "flags": frame.get(4)})),
+                Err(p) => rep.violation("tensor_chain.tcp.framing.decode_payload_v2/panic", &p, json!({"kind": kind})),
+            }
+        }
+        rep.case("frames_v2c", if ser.len() >= min_size && enabled { Some(&line) } else { None });
+        if rep.samples.len() < 12 && kind == "incompressible" {
+            rep.sample(json!({"stream":"frames_v2c","kind":kind,"ser_len":ser.len(),"comp_len":comp.len(),"min_size":min_size,"enabled":enabled}));
+        }
     }
 
     rep.note("lossy codecs (tensor-train, quantisation) are not modelled in this stream; see DESIGN.md C20");
